@@ -4,6 +4,7 @@ package client
 
 import (
 	"context"
+	"google.golang.org/grpc"
 	"time"
 
 	goatorepo "github.com/avos-io/goat/gen/goatorepo"
@@ -77,11 +78,15 @@ func H_C11_client_extra() {
 // torn down (its reset written), and a probe call started afterwards must complete.
 func H_C11_client_cancel_unread() {
 	m := vfParam("m", 3)
+	sender := vfParam("sender", 0) // 1: another goroutine of the caller has a SendMsg in progress on a congested link
 	conn := newZZConn()
 	conn.wch = make(chan *goatorepo.Rpc, 8)
+	conn.congested = sender == 1
 	rm := NewRpcMultiplexer(conn)
 	ctx, cancel := context.WithCancel(context.Background())
 	opened := make(chan struct{})
+	var theStream grpc.ClientStream
+	sendReturned := sender == 0
 	streamDone := false
 	probeDone := false
 	var probeErr error
@@ -90,6 +95,7 @@ func H_C11_client_cancel_unread() {
 		id, rw, teardown, err := rm.NewStreamReadWriter(ctx)
 		vfAssert(err == nil && id == 1, "stream-registered")
 		cs := NewStream(ctx, id, "/s/m", rw, teardown, "c", "s", nil, time.Time{})
+		theStream = cs
 		close(opened)
 		<-ctx.Done() // the caller never receives; it only waits for its own cancellation
 		out := new(testproto.Msg)
@@ -119,7 +125,16 @@ func H_C11_client_cancel_unread() {
 		<-opened
 		cancel()
 	}()
+	if sender == 1 {
+		go func() {
+			<-opened
+			err := theStream.SendMsg(&testproto.Msg{Value: 5})
+			vfAssert(err != nil, "send-on-a-congested-link-fails-once-the-call-is-cancelled")
+			sendReturned = true
+		}()
+	}
 	vfAtQuiescence(func() {
+		vfAssert(sendReturned, "sender-returns-after-cancellation")
 		vfAssert(streamDone, "cancelled-caller-returns")
 		vfAssert(probeDone && probeErr == nil, "probe-started-after-the-abandonment-completes")
 		resets := 0
